@@ -120,7 +120,7 @@ Lemma Same_model w w' b xb :
   (forall x, Sub w (m_root xb) x -> w_nodes w' x = w_nodes w x) /\
   (forall x, Sub w' (m_root xb) x <-> Sub w (m_root xb) x).
 Proof.
-  intros Hb (Hn & Hm & Hf). split; [rewrite (Hm b eq_refl); exact Hb|]. split; [exact Hf|].
+  intros Hb (Hn & Hm & Hf & _). split; [rewrite (Hm b eq_refl); exact Hb|]. split; [exact Hf|].
   split; [exact Hn|apply Sub_same; exact Hn].
 Qed.
 
